@@ -217,7 +217,9 @@ def check_or_generate_pyi(options) -> AnalysisResult:
     # directors.parser_libcst.
     compiler_error = (options.input, e.raw_line, e.message)
   except SyntaxError as e:
-    compiler_error = (options.input, e.lineno, e.msg)
+    # Some syntax errors carry no line (e.g. a null byte in the source); report
+    # them at the top of the file rather than at a line that does not exist.
+    compiler_error = (options.input, e.lineno or 1, e.msg)
   except directors.SkipFileError:
     other_error_info = "# skip-file found, file not analyzed"
   except Exception as e:  # pylint: disable=broad-except
